@@ -1,7 +1,8 @@
 (* Props/C03.v -- property theorems for C03 only. *)
 From LV Require Import Base FS FSFacts LayerEnv LayerEnvFacts LayerShared LayerSharedGone LayerEnvFS LayerEnvFSFacts Determinism LayerEnvFSExact FSInv LayerEnvFSCompose LayerEnvReadback LayerEnvFSRead LayerEnvFSCycle LayerEnvFSProc LayerEnvFSFull LayerEnvFSOrder LayerEnvFSApply.
 From Coq Require Import Lia.
-From LVGen Require Import GenLayerEnv.
+From LV Require Import ImpPrims ImpFacts.
+From LVGen Require Import GenLayerEnv GenLayerEnvImp.
 
 Theorem c03_tables :
   writer_suffix = spec_writer_table /\ reader_suffix = spec_reader_table /\
@@ -12,6 +13,53 @@ Theorem c03_tables :
   reader_skips_directories = true /\ reader_reads_process_dirs = true /\ reads_process = true.
 Proof. repeat split; reflexivity. Qed.
 Print Assumptions c03_tables.
+
+(* LayerEnvDelta::write_to_env_dir and LayerEnv::write_to_layer_dir as the translator reads them from
+   layer_env.rs statement by statement (imp.rs, result monad -> GenLayerEnvImp.v) ARE the model's writer:
+   the FS-level theorems below (exactness, overwrite, read-back, fixpoint) are about the code's own
+   statements, re-derived from /repo on every run. *)
+(* entries and files are the same list, entry by entry *)
+Lemma delta_files_entries d :
+  delta_files beh_order writer_suffix d =
+  map (fun e => (snd (fst e) ++ writer_suffix_of writer_suffix (fst (fst e)), snd e)) (entries_of beh_order d).
+Proof.
+  unfold delta_files, entries_of. induction beh_order as [|b l IH]; [reflexivity|].
+  cbn [flat_map]. rewrite map_app, IH, map_map. reflexivity.
+Qed.
+
+Lemma entries_empty d : is_empty (entries_of beh_order d) = delta_is_empty d.
+Proof. destruct d as [[|? ?] [|? ?] [|? ?] [|? ?] [|? ?]]; reflexivity. Qed.
+
+Theorem c03_write_env_dir_regenerated :
+  forall d p s, gen_write_to_env_dir (entries_of beh_order d) p s = write_env_dir beh_order writer_suffix d p s.
+Proof.
+  intros d p s. unfold gen_write_to_env_dir, write_env_dir.
+  apply bindM_ext.
+  - destruct (exists_ p s); [apply bind_ret_tt|reflexivity].
+  - intros s1. rewrite bind_ret_tt. rewrite entries_empty. destruct (delta_is_empty d); [reflexivity|]. cbn [negb].
+    apply bindM_ext; [reflexivity|]. intros s2. rewrite bind_ret_tt.
+    rewrite delta_files_entries, iterM_map. apply iterM_ext. intros [[b n] v] s3.
+    rewrite bind_ret_tt. cbn [fst snd]. destruct b; reflexivity.
+Qed.
+Print Assumptions c03_write_env_dir_regenerated.
+
+Theorem c03_write_to_layer_dir_regenerated :
+  forall e dir s,
+    gen_write_to_layer_dir (entries_of beh_order (le_all e)) (entries_of beh_order (le_build e))
+                           (entries_of beh_order (le_launch e))
+                           (map (fun pd => (fst pd, entries_of beh_order (snd pd))) (le_process e)) dir s
+    = write_to_layer_dir beh_order writer_suffix e dir s.
+Proof.
+  intros e dir s. unfold gen_write_to_layer_dir, write_to_layer_dir.
+  apply bindM_ext; [apply c03_write_env_dir_regenerated|]. intros s1.
+  apply bindM_ext; [apply c03_write_env_dir_regenerated|]. intros s2.
+  apply bindM_ext; [apply c03_write_env_dir_regenerated|]. intros s3.
+  rewrite bind_ret_tt, iterM_map. apply iterM_ext. intros [pn d] s4. cbn [fst snd].
+  rewrite bind_ret_tt, c03_write_env_dir_regenerated, <- app_assoc. reflexivity.
+Qed.
+Print Assumptions c03_write_to_layer_dir_regenerated.
+
+
 
 (* NAME.<suffix> splits back into (NAME, suffix) under Rust's file_stem/extension rules, for every
    non-empty byte string NAME (dots and non-UTF-8 bytes included) *)
